@@ -31,7 +31,8 @@ ASSUMPTIONS = ["the console answers as the vendor documents prescribe (SimConsol
                "connect latency of exactly 5 s races with the 5 s timeout: either result accepted"]
 REQUIRED_OBS = ["second_init_judged", "names_listed_out_of_order", "last_step_gated", "init_true_judged", "init_false_judged", "extras_inserted", "zero_zone_at5",
                 "zero_zone_at4",
-                "bitmap_partitions", "old_format_multi_ac", "silence_cases", "late_connect_cases"]
+                "bitmap_partitions", "old_format_multi_ac", "silence_cases", "late_connect_cases",
+                "second_init_after_a_failed_one"]
 BUDGET = {"quick": 100, "thorough": 1500}
 
 EXTRAS = ["unsol_ac_status", "unsol_zone_status", "dup_version", "dup_names", "unknown_type",
@@ -172,7 +173,7 @@ def cases(tier, seed):
             for lat in (0.0, 2.0):
                 for rep in range(1 if tier == "quick" else 6):
                     yield {"gen": gen, "seed": rnd.randrange(1 << 30), "extras": {},
-                           "seg": rep % 3, "silent": k, "lat": lat}
+                           "seg": rep % 3, "silent": k, "lat": lat, "again": lat == 0.0}
         # the console stops answering at step k while unrelated traffic goes on
         for k in range(0, 6):
             for ex in EXTRAS:
@@ -185,7 +186,7 @@ def cases(tier, seed):
         for lat in (4.9, 5.0, 5.1, 12.0):
             for refuse in (0, 1, 3):
                 yield {"gen": gen, "seed": rnd.randrange(1 << 30), "extras": {}, "seg": 0,
-                       "silent": None, "lat": lat, "refuse": refuse}
+                       "silent": None, "lat": lat, "refuse": refuse, "again": True}
     # zero zones explicitly
     for gen in (4, 5):
         for i in range(6):
@@ -275,7 +276,11 @@ def run_case(case):
         await w.at.shutdown()
         await quiesce(loop)
         out["first_end"] = log.mark()
-        if r is True and case.get("again"):
+        if case.get("again"):
+            # (also after an init() that gave up: the console was silent, or the connection
+            # attempt was still in flight when shutdown() came)
+            if r is not True:
+                obs["second_init_after_a_failed_one"] = 1
             # the same object initialised once more, against whatever the console describes
             # THEN (another installation, often a smaller one)
             inst2, _m2 = installation(gen, rnd, rnd.choice([0, 1, 2, None]))
